@@ -756,11 +756,15 @@ func (fr *frame) valOf(v ssa.Value) *Val {
 	case *ssa.Global:
 		name := "G:" + c.Pkg.Pkg.Path() + "." + c.Name()
 		et := c.Type().Underlying().(*types.Pointer).Elem()
-		if _, seen := u.initHeap[name]; !seen && !fr.pure && u.alloc0 != "" {
-			// the initial value of a package variable is well-formed and was allocated before the call
+		if _, seen := u.initHeap[name]; !seen && u.alloc0 != "" {
+			// the initial value of a package variable is well-formed and was allocated before the call (also when the
+			// first mention is in a specification: the fact is about the initial state, not about the mentioning frame)
 			tmp := &State{h: map[string]string{}, alloc: u.alloc0}
 			init := u.heapGet(tmp, name, u.sorts.sortOf(et))
+			wasPure := fr.pure
+			fr.pure = false
 			fr.assumeWF(et, init, tmp, "true")
+			fr.pure = wasPure
 			path := c.Pkg.Pkg.Path()
 			if _, isIface := et.Underlying().(*types.Interface); isIface && !(path == modPath || strings.HasPrefix(path, modPath+"/")) &&
 				(strings.HasPrefix(c.Name(), "Err") || c.Name() == "EOF") {
